@@ -236,10 +236,11 @@ _reg("C12", c12.run,
                 "from_dict / read return mirrors its children; hence (history_mirror) after ANY sequence of to_dict+from_dict, "
                 "write+read and infer_types the graph-level dictionaries are the children's current ones.",
      level_note="Lean kernel; hand-written model of __post_init__/infer_types; histories with round trips rely on the oracle.")
-_reg("C13", c13.run, translator=("T1", "T2"),
+_reg("C13", c13.run, translator=("T1", "T2"), module="NirVerif.Properties.C13Nested",
      theorems=["NirVerif.C13.keys", "NirVerif.C13.no_types", "NirVerif.C13.roundtrip", "NirVerif.C13.roundtrip_exact",
                "NirVerif.C13.roundtrip_exact_conv2d", "NirVerif.C13.roundtrip_exact_input", "NirVerif.C13.roundtrip_exact_output",
-               "NirVerif.C13.roundtrip_exact_flatten", "NirVerif.C13.graph_roundtrip_exact"],
+               "NirVerif.C13.roundtrip_exact_flatten", "NirVerif.C13.graph_roundtrip_exact",
+               "NirVerif.Lemmas.graph_dict_exactN", "NirVerif.C13.nested_roundtrip_exact", "NirVerif.C13.nested_graph"],
      rule="Graphs of the C01 domain plus consistent graphs with erased (None) annotations: to_dict output checked for "
           "plain values and documented keys, for shared ids and shared memory with the graph, for strict (type-identical) "
           "equivalence of from_dict(to_dict(g)), and by mutating the dictionary and re-snapshotting the graph; the model's "
@@ -251,7 +252,9 @@ _reg("C13", c13.run, translator=("T1", "T2"),
                 "(roundtrip_exact_conv2d: int -> pair normalisation is idempotent), "
                 "and Input / Output / Flatten with their class-specific dictionaries (16 of the 17 leaf classes; CubaLIF's "
                 "materialised w_in is not covered), that is EXACTLY the same node; a flat graph of such nodes with any "
-                "edge list and any metadata round-trips to exactly the same graph (graph_roundtrip_exact) (roundtrip_exact: a constructed node is the constructor applied to its own "
+                "edge list and any metadata round-trips to exactly the same graph (graph_roundtrip_exact), and so does every "
+                "graph NESTED TO ANY DEPTH over such leaves (nested_roundtrip_exact: ExactTree, by induction over the nesting "
+                "with the recursion fuel bounded by the dictionary's depth) (roundtrip_exact: a constructed node is the constructor applied to its own "
                 "fields). Independence of mutable state cannot be expressed in a model of "
                 "immutable values: it is observed on the real objects by the oracle (ids, shared memory, mutation).",
      level_note="Lean kernel; hand-written models of to_dict/from_dict/write/read and of the h5py contract (create_dataset conversions, item[()], link names, iteration order), validated against the real library and real files on every run.")
